@@ -27,6 +27,19 @@ CLAIMED = {
              'correspondence sampling. No axioms.',
         technique='Coq proof by chunk induction + exhaustive finite sweeps (vm_compute) + lia; differential correspondence',
         design='6 (C11)'),
+    'C13': dict(
+        text='Coq theorems (Props/C13.v): (a) every number of SimpleSequenceGenerator lies in its range for any start state, the closed form of the '
+             'k-th number, and freshness: after ANY history the next number differs from the number of every outstanding request sent fewer than one '
+             'period ago, also across wrap-around; default range = 1..0x7FFFFFFF passes assert_valid_sequence. (b) over a transition system of '
+             '_send_data (number assignment and correlator.put as separate, arbitrarily interleaved events), _handle_response (filter, pop, '
+             'compatibility test over the generated COMMAND_RESPONSE_MAP) and expiry: for every history no request is attributed twice; an attribution '
+             'happens only on a response with the request\'s number and a compatible command while it is stored; unknown/wrong-type responses attribute '
+             'nothing; no KeyError. The model is tied to the code by replaying seeded histories through the real ESME/SimpleCorrelator (sending hook '
+             'suspended between assignment and put) and comparing outcomes and final store with the model evaluated in Coq.',
+        note='Trusted: Coq kernel, translator (maps/tuples/bounds), harness (fake transport, hook), asyncio cooperative scheduling (atomic between awaits). '
+             'Expiry is an arbitrary environment deletion here; its timing is C14. No axioms.',
+        technique='Coq invariant proofs by induction over event histories (occurrence-count invariant, ghost ids) + modular arithmetic; trace correspondence against the real ESME',
+        design='6 (C13)'),
 }
 
 PENDING_REASON = 'check not built yet in this round (planned, see DESIGN.md section 6); not claimed until its proof and correspondence run exist'
